@@ -148,7 +148,9 @@ func runVariant(repo, verif, prop string, idx int) {
 			}
 		}()
 		props.SetWorld(w)
-		props.Registry[prop](&props.Ctx{W: w, R: r})
+		cx := &props.Ctx{W: w, R: r}
+		cx.InstallMemos()
+		props.Registry[prop](cx)
 	}()
 	un := r.Unresolved(known)
 	if len(un) == 0 {
